@@ -29,7 +29,7 @@ def main():
     seed = int(os.environ.get("VERIF_SEED", "0") or 0)
     P = props.PROPS[prop]
     t0 = time.time()
-    ev_path = os.path.join(VERIF, "evidence", prop + ".json")
+    ev_path = os.path.join(os.environ.get("XRAY_VERIF_OUT", VERIF), "evidence", prop + ".json")  # XRAY_VERIF_OUT: selftest runs write elsewhere
     os.makedirs(os.path.dirname(ev_path), exist_ok=True)
     if os.path.exists(ev_path):
         os.remove(ev_path)
@@ -99,7 +99,7 @@ def main():
     replay_path = None
     any_witness = False
     if new:
-        rdir = os.path.join(VERIF, "replays")
+        rdir = os.path.join(os.environ.get("XRAY_VERIF_OUT", VERIF), "replays")
         os.makedirs(rdir, exist_ok=True)
         replay_path = os.path.join(rdir, "%s-%s.json" % (prop, time.strftime("%Y%m%d-%H%M%S")))
         rep = {"property": prop, "tier": tier, "repo_fingerprint": repo_fingerprint(), "failed_obligations": []}
